@@ -154,6 +154,21 @@ def check_eop(c):
         Jn[:, k] = mn.response().sig_out[0].state
     if not np.array_equal(Jn, Mx.T):
         return "nodal-operation", "grid %s ndof %d: NodalOperation is not the transpose of ElementOperation" % (g, ndof)
+    # operators with two leading dimensions (k x l x dofs): B3[a, b] = (a+1) B[0] + (b-1) B[1], so that the expected values follow
+    # from the specification's gather matrix by linearity
+    coef = np.array([[[a + 1.0, b - 1.0] for b in range(3)] for a in range(2)])            # (2, 3, 2)
+    B3 = np.einsum("abr,ri->abi", coef, Bm)
+    rng3 = np.random.default_rng(7 * n + 1)
+    u = rng3.integers(-3, 4, n).astype(float)
+    Y = (Mx @ u).reshape(2, dom.nel)
+    y3 = pym.ElementOperation(pym.Signal("u", u), domain=dom, element_matrix=B3).response().sig_out[0].state
+    if np.shape(y3) != (2, 3, dom.nel) or not np.array_equal(y3, np.einsum("abr,re->abe", coef, Y)):
+        return "element-operation-kl", "grid %s ndof %d: ElementOperation with a (2, 3, dofs) operator differs from the specification" % (g, ndof)
+    x3 = rng3.integers(-2, 3, (2, 3, dom.nel)).astype(float)
+    z = np.einsum("abr,abe->re", coef, x3).reshape(-1)
+    v3 = pym.NodalOperation(pym.Signal("x", x3), domain=dom, element_matrix=B3).response().sig_out[0].state
+    if np.shape(v3) != (n,) or not np.array_equal(v3, Mx.T @ z):
+        return "nodal-operation-kl", "grid %s ndof %d: NodalOperation with a (2, 3, dofs) operator is not the transpose of ElementOperation" % (g, ndof)
     # operator given per node only: repeated for every dof, output (ndof, ..., nel)
     Bn = Bm[:, ::ndof][:, :dom.elemnodes] if Bm.shape[1] >= dom.elemnodes * ndof else None
     if Bn is not None and ndof > 1:
